@@ -15,6 +15,11 @@ CHECKS = {
         technique="TLA+ contract SigStoreAbs + design spec SigStorePebble (TLC exhaustive refinement); TLC-simulated behaviours replayed on the real PebbleScanner and every recorded call validated by TLC trace validation",
         text="TLC explores all reachable states of the implementation-shaped design spec and shows every index-driven lookup equals the brute-force contract meaning; the real store is bound by replaying TLC behaviours (key space compared step by step) and by validating recorded traces of all lookups against the contract. Exhaustive for the model, sampled (TLC-steered + seeded) for the code.",
         note=TRUST + "; hash/ID pools colon-free; scoring taken from the real MatchSignature"),
+    "C07": dict(
+        level="fault_enumeration", ref="3/C07",
+        technique="fault enumeration steered and judged by TLA+: TLC-generated histories x every file-system operation of the real store as crash point (strict in-memory FS via hook H1); crash traces validated by TLC against the contract (Atomic/Durable/RebuildSafe/Repairable); rebuild phases with crashes model-checked in the design spec",
+        text="Every mutating FS operation (create/write/sync/rename/remove) issued by the real store during each explored history is used as the point where durable storage stops; the recovered state and all lookups, before and after a re-run of the rebuild, are validated by TLC against the crash contract. Exhaustive over crash points for the explored histories; histories are TLC behaviours of the design spec plus seeded ones, plus one >1000-signature history whose rebuild really chunks.",
+        note=TRUST + "; Pebble's strict MemFS is the durability model (only synced data survives); torn single writes are not modelled"),
 }
 
 NOT_YET = {}
